@@ -717,7 +717,9 @@ class EvolutionSuperOperator(SuperOperator, TimeDependent, Saveable):
         if time is not None:
             ti, dt = self.time.locate(time)
 
-            return SuperOperator(data=self.data[ti, :, :, :, :])
+            # the new object must own its data: a view of the storage of this
+            # object would be transformed by both objects on a basis change
+            return SuperOperator(data=self.data[ti, :, :, :, :].copy())
         else:
             return SuperOperator(data=self.data)
 
@@ -752,6 +754,11 @@ class EvolutionSuperOperator(SuperOperator, TimeDependent, Saveable):
             if copy:
                 import copy
                 oper_ven = copy.copy(target)
+                # a copy made inside a basis context has to be registered with
+                # that basis, otherwise it is not transformed back on exit
+                cb = self.manager.get_current_basis()
+                if (cb != 0) and (oper_ven.get_current_basis() == cb):
+                    self.manager.register_with_basis(cb, oper_ven)
                 oper_ven.data = numpy.tensordot(self.data[ti, :, :, :, :],
                                                 target.data)
                 return oper_ven
